@@ -36,9 +36,9 @@ theorem rKey_beq {k1 k2 : String} (h1 : okName k1) (h2 : okName k2) : (rKey k1 =
   · have : rKey k1 ≠ rKey k2 := fun h' => h (rKey_inj h1 h2 h')
     rw [beq_eq_false_iff_ne.mpr this, beq_eq_false_iff_ne.mpr h]
 
-theorem globMatch_lit (c : Char) (ps cs : List Char) (h1 : c ≠ '*') (h2 : c ≠ '?') :
+theorem globMatch_lit (c : Char) (ps cs : List Char) (h1 : c ≠ '*') (h2 : c ≠ '?') (h3 : c ≠ '\\') :
     globMatch (c :: ps) (c :: cs) = globMatch ps cs := by
-  rw [globMatch.eq_8 c ps c cs h1 h2]
+  rw [globMatch.eq_10 c ps c cs h1 h2 (fun _ _ h _ => h3 h)]
   simp
 
 theorem glob_star : ∀ l, globMatch ['*'] l = true := by
@@ -52,9 +52,9 @@ theorem glob_rKey {p k : String} (hp : okName p) (hk : okName k) :
   rw [rKey_toList hp, rKey_toList hk]
   unfold kvsPrefix
   simp only [List.cons_append, List.nil_append]
-  rw [globMatch_lit _ _ _ (by decide) (by decide), globMatch_lit _ _ _ (by decide) (by decide),
-    globMatch_lit _ _ _ (by decide) (by decide), globMatch_lit _ _ _ (by decide) (by decide),
-    globMatch_lit _ _ _ (by decide) (by decide)]
+  rw [globMatch_lit _ _ _ (by decide) (by decide) (by decide), globMatch_lit _ _ _ (by decide) (by decide) (by decide),
+    globMatch_lit _ _ _ (by decide) (by decide) (by decide), globMatch_lit _ _ _ (by decide) (by decide) (by decide),
+    globMatch_lit _ _ _ (by decide) (by decide) (by decide)]
 
 theorem drop_rKey {k : String} (hk : okName k) : String.ofList ((rKey k).toList.drop 5) = k := by
   rw [rKey_toList hk]
